@@ -1,6 +1,7 @@
 (* C17 - sky pixelisation maps coordinates to indices consistently.
    Statements only; every proof is `exact <lemma>` (Lemmas/LandscapeL.v).  The model
-   (Model/Landscape.v) is the FIXED code (fixes/c17-pixel2index-dtype.diff): int32 iff N <= 2^31-1.
+   (Model/Landscape.v) is the FIXED code (fixes/c17-pixel2index-dtype.diff): int32 iff N <= 2^31-1;
+   get_coverage counts every sample of broadcast(theta, phi, pa) (furax commit 9b83753).
 
    Vocabulary: ps = pixel_shape (first axis fastest), N = prod ps, `fin qs` = a tuple of real
    (rational - every finite float is one) coordinates, `ints cs` = integer coordinates,
@@ -186,6 +187,58 @@ Print Assumptions coverage_histogram.
 Theorem coverage_unique_sorted : forall l,
   StronglySorted (fun a b : Z * Z => fst a < fst b) (unique_counts l).
 Proof. exact unique_counts_sorted. Qed.
+
+(* ---- Sampling fields of different but broadcastable shapes (0-d theta with a vector phi, theta (ndet,1)
+   with phi (1,n), position angles of a larger shape): world2index broadcasts theta and phi, get_coverage
+   counts every sample of the broadcast of the indices against pa (furax commit 9b83753) ---- *)
+(* the broadcast shape is one both shapes broadcast to (NumPy rule: aligned on the last axis, equal or 1) *)
+Theorem broadcast_shape_sound : forall s1 s2 t, bshape s1 s2 = Some t ->
+  broadcasts_to s1 t /\ broadcasts_to s2 t /\ (all_nonneg s1 -> all_nonneg s2 -> all_nonneg t).
+Proof. exact bshape_spec. Qed.
+Print Assumptions broadcast_shape_sound.
+(* a broadcast array has as many elements as its shape says, all of them elements of the original *)
+Theorem broadcast_size : forall (A : Type) s t (d : list A), broadcasts_to s t -> all_nonneg t ->
+  length d = Z.to_nat (prod s) -> length (broadcast_to s t d) = Z.to_nat (prod t).
+Proof. exact broadcast_to_length. Qed.
+Theorem broadcast_elements : forall (A : Type) s t (d : list A) x, In x (broadcast_to s t d) -> In x d.
+Proof. exact broadcast_to_In. Qed.
+(* world2index returns one index per element of the broadcast of theta and phi; the coverage has one
+   entry per pixel, entry p counts the samples (broadcast against pa) whose index is p, and the
+   coverage sums to the number of samples prod u = np.broadcast(theta, phi, pa).size = len(sampling) *)
+Theorem coverage_of_broadcast_sampling : forall x64 l theta phi pa t w idx cov,
+  well_formed theta -> well_formed phi -> all_nonneg pa ->
+  sampling_coverage x64 (inl l) theta phi pa = Coverage t w idx cov ->
+  bshape (f_shape theta) (f_shape phi) = Some t /\
+  length idx = Z.to_nat (prod t) /\
+  exists u, bshape t pa = Some u /\ 0 <= prod u /\
+    cov = get_coverage (len l) (broadcast_to t u idx) /\
+    length (broadcast_to t u idx) = Z.to_nat (prod u) /\
+    (0 <= len l -> Forall (fun i => 0 <= i < len l) idx ->
+       length cov = Z.to_nat (len l) /\ zsum cov = prod u /\
+       forall p, 0 <= p < len l ->
+         nth (Z.to_nat p) cov 0 = Z.of_nat (count_occ Z.eq_dec (broadcast_to t u idx) p)).
+Proof. exact sampling_coverage_spec_l. Qed.
+Print Assumptions coverage_of_broadcast_sampling.
+(* witnesses: a constant-x scan (0-d theta, phi of shape (4,)) on a map of shape (4,6) seen by two
+   detectors sharing the pointing (pa of shape (2,1)): 4 directions, 8 samples [the pinned tree counted 4];
+   theta (2,1) x phi (1,3): 6 samples; (2,3) and (2,) cannot be broadcast *)
+Example coverage_broadcast_example :
+  let l := stokes_landscape (Some [4; 6]) None 1 in
+  let theta := mkField [] [Fin 2] in let phi := mkField [4] [Fin 0; Fin 1; Fin 1; Fin 3] in
+  well_formed theta /\ well_formed phi /\ all_nonneg [2; 1] /\
+  sampling_coverage false l theta phi [2; 1] =
+    Coverage [4] 32 [2; 8; 8; 20] [0; 0; 2; 0; 0; 0; 0; 0; 4; 0; 0; 0; 0; 0; 0; 0; 0; 0; 0; 0; 2; 0; 0; 0] /\
+  sampling_coverage false l theta phi [] =
+    Coverage [4] 32 [2; 8; 8; 20] [0; 0; 1; 0; 0; 0; 0; 0; 2; 0; 0; 0; 0; 0; 0; 0; 0; 0; 0; 0; 1; 0; 0; 0] /\
+  sampling_coverage false l (mkField [2; 1] [Fin 0; Fin 5]) (mkField [1; 3] [Fin 0; Fin 1; Fin 0]) [] =
+    Coverage [2; 3] 32 [0; 6; 0; 5; 11; 5] [2; 0; 0; 0; 0; 2; 1; 0; 0; 0; 0; 1; 0; 0; 0; 0; 0; 0; 0; 0; 0; 0; 0; 0] /\
+  bshape [2; 3] [2] = None /\ bshape [3; 1] [4] = Some [3; 4] /\ bshape [] [] = Some [].
+Proof.
+  cbv zeta. split. { split; [constructor|reflexivity]. }
+  split. { split; [repeat constructor; discriminate|reflexivity]. }
+  split. { repeat constructor; discriminate. }
+  repeat split; vm_compute; reflexivity.
+Qed.
 
 (* ---- non-vacuity and boundary witnesses ---- *)
 (* a 3-axis map, pixel_shape (2,3,4): hypotheses hold, index 1 + 2*2 + 6*3 = 23 = N-1, int32 *)
